@@ -20,7 +20,9 @@ import pipecheck
 
 LABEL_ALPHA = list("abcxyzABCXYZ019") + ["ß", "ẞ", "é", "É", "σ", "ς", "Σ", "ǆ", "ǅ", "Ǆ", "K", "k", "İ", "ı", "i", "I", "ﬁ", "ŉ", "ǰ", "ΐ", "ա", "Ա", "中", "-", "_", ".", "*", "!", " ", " ", "\t"]
 DEST = ["/u", "/url", "http://a.b/c?d=e&f", "<a b>", "<>", "/p(q)r", "a\\)b", "x&amp;y", "/é", "%41", "%zz", "\\<x", "a\\*b", "#frag", "mailto:x@y", "javascript:x", "<java script:x>", "/a_b_c", "/a*b*", "&#x2F;", "<a\\>b>", "/\\\\"]
-TITLE_CH = list("abc xyz") + ["\\\"", "\\'", "\\)", "\\\\", "&amp;", "&quot;", "&#39;", "*", "_", "`", "<", ">", "\n", "\\\n", "é", "\\", "[", "]", "(", "&"]
+TITLE_CH = list("abc xyz") + ["\\\"", "\\'", "\\)", "\\\\", "&amp;", "&quot;", "&#39;", "*", "_", "`", "<", ">", "\n", "\\\n", "é", "\\", "[", "]", "(", "&",
+                                # character references for line ends and blanks: text of the title, not structure of the source
+                                "&#10;", "&#xA;", "&NewLine;", "&#13;", "&Tab;", "&#32;"]
 TEXT = ["t", "some text", "*em*", "`code`", "a\\]b", "x &amp; y", "![i](/j)", "<b>", "two\nlines", "a_b_", "\\[x\\]", "é", "a  b"]
 
 
